@@ -508,6 +508,7 @@ func (e *Env) evalUnary(y *ast.UnaryExpr, st *State) Value {
 			if r := e.elemAddr(z, st); r != nil {
 				return r
 			}
+			c.noteAssumed(fmt.Sprintf("%s: &%s is a fresh address (element type not a flat struct): writes through it are not seen in the element", c.Name, exprString(z)))
 		}
 		r := c.freshVar("addr", SInt)
 		st.assume(IGt(r, IntC(0)))
